@@ -1,50 +1,22 @@
-mod c06;
-mod c07;
-mod c08;
-mod c12;
-mod c16;
-mod chain;
-mod market;
-mod util;
-
-use mcx::Scenario;
+use checks::*;
 use serde_json::Value;
-
-fn replay_with<Sc: Scenario>(scn: &Sc, v: &Value) -> ! {
-    let base = v["base"].as_str().unwrap();
-    let mut path = vec![];
-    for st in v["path"].as_array().unwrap() {
-        let a: Sc::A = serde_json::from_value(st["action"].clone()).expect("action decodes");
-        let f: Vec<usize> = serde_json::from_value(st["faults"].clone()).unwrap();
-        path.push((a, f));
-    }
-    match mcx::replay_path(scn, base, &path) {
-        Ok(Some(msg)) => {
-            println!("REPRODUCED property={} {}", v["property"].as_str().unwrap_or("?"), msg);
-            std::process::exit(1);
-        }
-        Ok(None) => {
-            println!("NOT-REPRODUCED: the recorded path passes on this tree");
-            std::process::exit(0);
-        }
-        Err(e) => {
-            eprintln!("replay machinery error: {e}");
-            std::process::exit(2);
-        }
-    }
-}
 
 fn replay(file: &str) -> ! {
     let txt = std::fs::read_to_string(file).expect("replay file readable");
     let v: Value = serde_json::from_str(&txt).expect("replay file is JSON");
-    let scn = v["scenario"].as_str().unwrap_or("");
+    let scn = v["scenario"].as_str().unwrap_or("").to_string();
     let tier = v["tier"].as_str().unwrap_or("thorough");
-    match scn {
+    match scn.as_str() {
         "paych" => replay_with(&c16::scenario(tier).0, &v),
         "market/escrow" => replay_with(&c06::scenario(tier).0, &v),
         "market/payments" => replay_with(&c07::scenario(tier).0, &v),
         "market/lifecycle" => replay_with(&c08::scenario(tier).0, &v),
         "multisig" => replay_with(&c12::scenario(tier).0, &v),
+        s if s.starts_with("c09") => c09::replay(&v),
+        s if s.starts_with("c17") => c17::replay(&v),
+        s if s.starts_with("c18") => c18::replay(&v),
+        s if s.starts_with("c19") => c19::replay(&v),
+        s if s.starts_with("c20") => c20::replay(&v),
         _ => {
             eprintln!("unknown scenario {scn}");
             std::process::exit(2)
@@ -59,15 +31,19 @@ fn main() {
         eprintln!("usage: mc <Cxx> [quick|thorough] | mc replay <file>");
         std::process::exit(2);
     }
-    let tier = std::env::var("VERIF_TIER").ok().or(args.get(2).cloned()).unwrap_or("quick".into());
-    let tier = if args.get(2).is_some() { args[2].clone() } else { tier };
+    let tier = args.get(2).cloned().or(std::env::var("VERIF_TIER").ok()).unwrap_or("quick".into());
     match args[1].to_uppercase().as_str() {
         "REPLAY" => replay(&args[2]),
-        "C16" => c16::run(&tier),
-        "C12" => c12::run(&tier),
         "C06" => c06::run(&tier),
         "C07" => c07::run(&tier),
         "C08" => c08::run(&tier),
+        "C09" => c09::run(&tier),
+        "C12" => c12::run(&tier),
+        "C16" => c16::run(&tier),
+        "C17" => c17::run(&tier),
+        "C18" => c18::run(&tier),
+        "C19" => c19::run(&tier),
+        "C20" => c20::run(&tier),
         x => {
             eprintln!("unknown check {x}");
             std::process::exit(2);
